@@ -405,6 +405,14 @@ fn bezier_case(ctx: &mut Ctx, index: u64, r: &mut Rng, bufs: &mut CurveBuffers) 
     let w = format!("bezier {cps:?}");
     ctx.case(index, w.as_bytes(), |ctx| {
         let curve = Curve::new(GameMode::Osu, &mk(&cps, PathType::BEZIER), None, bufs);
+        if cps.len() != 3 {
+            // a perfect-curve segment that does not have exactly three points is the Bezier of its points
+            let as_perfect = Curve::new(GameMode::Osu, &mk(&cps, PathType::PERFECT_CURVE), None, bufs);
+            ctx.count("perfect_curves_with_other_than_three_points");
+            if as_path(&as_perfect) != as_path(&curve) {
+                ctx.violation("perfect_not_bezier", format!("a perfect-curve segment with {} points is not drawn as the Bezier of its points ({} vs {} path points)", cps.len(), as_perfect.path().len(), curve.path().len()), index, w.as_bytes());
+            }
+        }
         let path = as_path(&curve);
         let deg = (n - 1) as f64;
         let m = cps.iter().map(|p| p.0.abs().max(p.1.abs())).fold(1.0, f64::max);
